@@ -181,7 +181,7 @@ def main() -> int:
                     kind.impl(tuple(pre) if isinstance(pre, list) and not isinstance(case["args"], list) else pre)
                 except Exception:
                     pass
-            out = kind.impl(case["args"])
+            out = C.impl_for_stream(kind, case.get("stream", ""))(case["args"])
             print(f"replay {case['kind']} args={json.dumps(case['args'])[:300]}\n  impl: {out[:300]}")
             if kind.judge:
                 for line, exp in kind.judge(case["args"], out):
@@ -233,8 +233,10 @@ def main() -> int:
         f0 = next(f for f in ctx.spec_failures if "args" in f)
         kind = mod.KINDS[f0["kind"]]
 
+        run_as = C.impl_for_stream(kind, f0.get("stream", ""))
+
         def still(args):
-            out = kind.impl(args)
+            out = run_as(args)
             if kind.known and kind.known(args, out):
                 return False
             return any(C.run_exe("specjudge", [l])[0] != e for l, e in kind.judge(args, out))
@@ -242,7 +244,7 @@ def main() -> int:
         if kind.judge and kind.shrink:
             small = C.shrink_case(kind, f0["args"], still)
             if small != f0["args"]:
-                f0 = dict(f0, args=small, impl=kind.impl(small), minimised_from=f0["args"])
+                f0 = dict(f0, args=small, impl=run_as(small), minimised_from=f0["args"])
         violation = {"stage": "search", "what": "the Spec predicate of the property is false of the implementation on this input",
                      "cases": [f0], "others": len(ctx.spec_failures) - 1}
     elif broken or ctx.disagreements:
